@@ -75,7 +75,7 @@ CHECKS = {
         category="model_checking",
         technique="explicit-state BFS over the real NextSubmission / BlobSubmitter pending-block logic with conductor-style decoding of every submission",
         text=("BFS over every sequence of <= 4 (thorough 7) events from {deliver(next height, one of 5-6 size classes of incompressible "
-              "payload around the 1 MB compressed limit, 0..2 rollups), take} for rollup filters {all, only one rollup, only an "
+              "payload around the 1 MB compressed limit, 0..2 rollups), take} for rollup filters {all, only the first rollup, only the second rollup, only an "
               "absent rollup}, each state replayed on a fresh real BlobSubmitter (real add_sequencer_block_to_next_submission / "
               "has_capacity / NextSubmission::try_add / take). Every taken submission is decoded as the conductor does (brotli, "
               "protobuf lists, checked types) and must contain exactly the batched blocks' metadata in height order and exactly the "
@@ -139,7 +139,7 @@ CHECKS = {
         text=("Every block shape over 3 rollups (payload list from {none, [0x00], [a], [a,a], [a,b]} per rollup x deposits {none, 1, "
               "2 to two bridges, 2 to one bridge} x {one bundle, one transaction per item}; quick: every third of the grid, thorough: "
               "all 1000) is produced by the real CheckTx/PrepareProposal/FinalizeBlock/Commit and read back through the real "
-              "SequencerServer for the full block and each of the 16 rollup-id subsets, decoded with the client-side checked types "
+              "SequencerServer for the full block and every ordered selection of the 4 rollup ids (65 request orders plus 40 with a repeated id), decoded with the client-side checked types "
               "and split for Celestia; oracle: data == payloads in block order then deposits (reference from the included "
               "transactions), ids sorted = rollups with data, header root == independently recomputed root, proofs verify; every "
               "single-element tampering of the full, filtered and Celestia forms must fail verification. The conductor side of the "
